@@ -165,7 +165,7 @@ def check_main(prop: str, tier: str) -> int:
     agg = {
         'runs': 0, 'steps': 0, 'oracle_checks': 0, 'faults': {}, 'probes': {}, 'relaxed': {}, 'states': set(),
         'digests_nontrivial': set(), 'nontrivial_runs': 0, 'fault_free_runs': 0, 'harness_errors': [], 'timeouts': 0,
-        'violations': [], 'ops_total': 0,
+        'violations': [], 'ops_total': 0, 'known_counts': {},
     }
     digests_by_seed = {}
     max_viol = 12
@@ -196,10 +196,17 @@ def check_main(prop: str, tier: str) -> int:
             digests_by_seed[job.payload['seed']] = res['digest']
         if res.get('violation'):
             sc = res.get('scenario') or job.payload.get('scenario')
+            kf = match_known(res['violation'], prop, known)
+            if kf is not None:
+                # a listed finding: counted, the first occurrence is kept for the KNOWN-FINDING line, never part of the alarm budget
+                agg['known_counts'][kf.get('id')] = agg['known_counts'].get(kf.get('id'), 0) + 1
+                if agg['known_counts'][kf.get('id')] > 1:
+                    return
             agg['violations'].append({'violation': res['violation'], 'scenario': sc, 'digest': res['digest'], 'key': str(job.key)})
 
     def too_many():
-        return len(agg['violations']) >= max_viol or len(agg['harness_errors']) > 20
+        n_new = sum(1 for it in agg['violations'] if match_known(it['violation'], prop, known) is None)
+        return n_new >= max_viol or len(agg['harness_errors']) > 20
 
     # phase A: enumerated scenarios (C16 crash points), if the engine has them
     enum_info = None
@@ -328,6 +335,7 @@ def check_main(prop: str, tier: str) -> int:
         'real_vs_stub': eng.REAL_VS_STUB,
         'determinism_selfcheck': det,
         'known_findings_seen': known_seen,
+        'known_findings_counts': agg['known_counts'],
         'violations_reported': reported,
         'harness_errors': agg['harness_errors'][:10],
         'workers': workers,
